@@ -54,6 +54,7 @@ type Val struct {
 	Elem   *Val       // for KMap: template of element (kind/type)
 	Owner  string     // for a pointer-valued mutex: the object whose monitor it is
 	OwnerT string     // monitor type key of Owner
+	Unset  bool       // ghost local that only hooks assign and no hook has assigned yet (see unsetGhosts)
 }
 
 func (v Val) isScalar() bool {
